@@ -126,12 +126,21 @@ def r1(ctx):
     # sweep condition: DISCONNECTED or timed out
     sweep_od = [c for c in ods if any(isinstance(p, ast.While) for p in _parents(c, run.node))]
     for c in sweep_od:
-        conds = [norm(t) + ("" if p else " [F]") for (t, p) in cfg.conditions_of(cfg.node_of(c).id)]
-        # the branch condition is an `or`: neither leaf edge-dominates; inspect the enclosing If test instead
-        ifs = [p for p in _parents(c, run.node) if isinstance(p, ast.If)]
-        t = norm(ifs[0].test) if ifs else ""
-        ok = "client.status == ConnectionStatus.DISCONNECTED" in t and "client.timedout(self.ctxt.connection_timeout)" in t and isinstance(ifs[0].test, ast.BoolOp) and isinstance(ifs[0].test.op, ast.Or)
-        ctx.check(ok, "C10.R1", run, "disconnect on DISCONNECTED status or silence timeout", witness=t, line=c.lineno)
+        # the branch condition is a disjunction (or its De Morgan dual with the branches exchanged): neither leaf edge-dominates.
+        # Edge cut: without the outcomes `status == DISCONNECTED` and `timedout(connection_timeout)` the disconnect is unreachable
+        from .common import leaf_cut, reach_without
+        def down(t):
+            if t == "client.status == ConnectionStatus.DISCONNECTED" or t == "client.timedout(self.ctxt.connection_timeout)":
+                return "T"
+            if t == "client.status != ConnectionStatus.DISCONNECTED":
+                return "F"
+            return None
+        cut = leaf_cut(cfg, down)
+        loop = [p for p in _parents(c, run.node) if isinstance(p, ast.For)]
+        head = cfg.node_of(loop[0]).id if loop else cfg.entry
+        texts = sorted({norm(cfg.nodes[k].ast) for k in cut})
+        ok = len(cut) >= 2 and any("timedout" in t for t in texts) and any("status" in t for t in texts) and cfg.node_of(c).id not in reach_without(cfg, head, cut)
+        ctx.check(ok, "C10.R1", run, "disconnect on DISCONNECTED status or silence timeout", witness=texts, line=c.lineno)
     # DISCONNECTING -> client.disconnect() first
     dc = [c for c in calls_named(run, "disconnect") if norm(c.func) == "client.disconnect"]
     ok = len(dc) == 1 and any(norm(p.test) == "client.status == ConnectionStatus.DISCONNECTING" for p in _parents(dc[0], run.node) if isinstance(p, ast.If))
